@@ -7,11 +7,12 @@ from pathlib import Path
 V = Path("/verif")
 props = [json.loads(l) for l in (V / "properties.jsonl").read_text().splitlines() if l.strip()]
 na_reasons = json.loads((V / "tools/not_applicable.json").read_text())
+claimed = set(json.loads((V / "tools/claimed.json").read_text()))  # integrated + verified by the lead
 checks, na, served = [], [], []
 for p in props:
     pid = p["id"]
     f = V / "harness/props" / f"{pid.lower()}.py"
-    if f.exists():
+    if f.exists() and pid in claimed:
         m = importlib.import_module(f"harness.props.{pid.lower()}").META
         served.append(pid)
         checks.append({
